@@ -182,6 +182,8 @@ def assembler(ctx):
                 return (v,) if truth == (v.kind == 'start') else ()
             if t == 'packet.pb_flag == HCI_ACL_PB_CONTINUATION':
                 return (v,) if truth == (v.kind == 'cont') else ()
+            if truth and v.kind == 'start' and same_ineq_(atom, 'len(packet.data) < 2'):
+                return (v._replace(accepted='short'),)     # start fragment too short to hold the L2CAP length: dropped
             if t == 'self.current_data is None':
                 none = v.data == 'none'
                 return (v,) if truth == none else ()
@@ -189,6 +191,10 @@ def assembler(ctx):
                 none = v.data == 'none'
                 return (v,) if truth != none else ()
             return (v,)
+
+        def may_raise(self, call):
+            # reading the length from a fragment shorter than 2 bytes raises
+            return 'struct.error' if (dotted(call.func) or '').startswith('struct.unpack') else None
 
         def event(self, node, v):
             if isinstance(node, ast.Assign):
@@ -204,6 +210,13 @@ def assembler(ctx):
                 return (v._replace(delivered=v.delivered + 1),)
             return (v,)
 
+    def same_ineq_(atom, txt):
+        from ..sym import same_ineq
+        try:
+            return same_ineq(atom, txt)
+        except Exception:
+            return False
+
     def run(kind, had):
         init = V(kind, had, 'old' if had else 'none', 'old' if had else 'zero', 0, False)
         res = paths.run(fn, D(), init)
@@ -212,8 +225,14 @@ def assembler(ctx):
     # start fragment: state replaced whatever was there
     for had in (True, False):
         outs = run('start', had)
-        bad = [f'{k}: data={s.data} length={s.length}' for k, s in outs if not k.startswith('raise') and not (s.accepted and ((s.data == 'new' and s.length == 'new') or (s.data == 'none' and s.length == 'zero' and s.delivered <= 1)))]
+        bad = [f'{k}: data={s.data} length={s.length}' for k, s in outs if not k.startswith('raise') and not (s.accepted is True and ((s.data == 'new' and s.length == 'new') or (s.data == 'none' and s.length == 'zero' and s.delivered <= 1)))
+               and not (s.accepted == 'short' and s.data == 'none' and s.length == 'zero' and s.delivered == 0)]
         R.check(not bad and bool(outs), rule, key + f' | start fragment ({"PDU in progress" if had else "idle"})', 'the start fragment replaces any partial PDU (then completes or waits)', f'a start fragment is not taken as the beginning of a new PDU in every state (a PDU cut short by the peer makes the next, well-formed one disappear): {bad}', p.loc(fn))
+    # ... also when reading its length fails (a start fragment of 0 or 1 byte): the partial PDU is forgotten first
+    outs = run('start', True)
+    kept = [f'{k}: data={s.data}' for k, s in outs if k.startswith('raise') and s.data == 'old']
+    R.check(not kept, rule, key + ' | start fragment (length unreadable)', 'no exception can leave the previous partial PDU in place',
+            f'a start fragment too short to hold the L2CAP length raises while the previous partial PDU is still in place ({kept}): the continuation that follows is appended to the old PDU and a PDU mixing both is delivered', p.loc(fn))
     # continuation without start: nothing changes, nothing delivered
     outs = run('cont', False)
     bad = [f'{k}: data={s.data} length={s.length} delivered={s.delivered}' for k, s in outs if not k.startswith('raise') and (s.data != 'none' or s.length != 'zero' or s.delivered)]
